@@ -16,7 +16,8 @@ LOCK_DECL = [r'^auto lock = get_lock\(\)$']
 
 # String literals streamed into a report: only the phrases that carry structure (the ones the harness' report parser
 # and the properties key on) are kept; all other wording is `Tok.text`, so that re-wording a message does not break a tie.
-KEY_PHRASES = [('no more pending', 'noMore'), ('first in line', 'firstInLine'), ('first required', 'firstRequired'),
+KEY_PHRASES = [('No match for call', 'noMatchCall'), ('Matches saturated', 'matchesSaturated'), ('Tried', 'tried'),
+               ('no more pending', 'noMore'), ('first in line', 'firstInLine'), ('first required', 'firstRequired'),
                ('missing', 'missing'), ('Sequence mismatch', 'seqMismatch'), ('not met at destruction', 'teardown'),
                ('and has', 'andHas'), ('" has ', 'has')]
 
@@ -629,5 +630,71 @@ FUNCTIONS += [
         expr_rules=[(r'^i != this->end\(\)$', '(i != ring_end this h)')],
         stmt_rules=[(r'^\+\+i$', 'i := ring_iter_incr i h'),
                     (r'^Disposer::dispose\(&elem\)$', 'h := ring_unlink elem h')],
+    ),
+]
+
+# ----------------------------------------------------------------------------------------------
+# matching one expectation against a call, and the no-match report (C01, C04, C08, C15)
+
+FUNCTIONS += [
+    dict(
+        name='match_conditions', cxx='call_matcher::match_conditions', file=MOCK, module='MatchConditions',
+        header=r'\n\s*match_conditions\(\s*call_params_type_t<Sig> const\s*&\s*params\)\s*const',
+        lean_sig='{κ : Type} (check : κ → Bool) (conditions : List κ) : Bool × List κ',
+        prologue=['let mut evals : List κ := []'], epilogue='return (true, evals)',
+        vars={'conditions': 'conditions'},
+        eval_log=[(r'^(\w+)\.check\(params\)$', r'evals := evals ++ [\1]')],
+        expr_rules=[(r'^(\w+)\.check\(params\)$', r'check \1')],
+        ret_rules=[(r'^false$', '(false, evals)'), (r'^true$', '(true, evals)')],
+    ),
+    dict(
+        name='call_matcher_matches', cxx='call_matcher::matches', file=MOCK, module='CallMatcherMatches', imports=['MatchConditions'],
+        header=r'\n\s*matches\(\s*call_params_type_t<Sig> const\s*&\s*params\)\s*const\s*override',
+        lean_sig='{κ : Type} (paramsOk : Bool) (check : κ → Bool) (conditions : List κ) : Bool × List κ',
+        # `A && B`: B (which evaluates the user's WITH predicates) runs only if A holds
+        ret_rules=[(r'^match_parameters\(val, params\) && match_conditions\(params\)$',
+                    'if paramsOk then match_conditions check conditions else (false, [])')],
+    ),
+    dict(
+        name='report_mismatch_member', cxx='call_matcher::report_mismatch', file=MOCK, module='ReportMismatchMember',
+        header=r'\n\s*report_mismatch\(\s*std::ostream\s*&\s*os,\s*call_params_type_t<Sig> const\s*&\s*params\)\s*override',
+        lean_sig='{κ : Type} (paramsOk : Bool) (check : κ → Bool) (conditions : List κ) : Bool × List (MTok κ) × List κ',
+        prologue=['let mut reported := false', 'let mut os : List (MTok κ) := []', 'let mut evals : List κ := []'],
+        epilogue='return (reported, os, evals)',
+        vars={'conditions': 'conditions', 'reported': 'reported'},
+        eval_log=[(r'^(\w+)\.check\(params\)$', r'evals := evals ++ [\1]')],
+        expr_rules=[(r'^(\w+)\.check\(params\)$', r'check \1'), (r'^match_parameters\(val, params\)$', 'paramsOk')],
+        stmt_rules=[(r'^report_signature\(os\)$', 'os := os ++ [MTok.signature]'),
+                    (r'^::trompeloeil::print_mismatch\(os, val, params\)$', 'os := os ++ [MTok.paramMismatch]')],
+        stream_sinks=[(r'^os$', 'os')],
+        tok_rules=[(r'^"(?:\\.|[^"\\])*"$', 'MTok.text'), (r"^'(?:\\.|[^'\\])*'$", 'MTok.text'),
+                   (r'^(\w+)\.name\(\)$', r'MTok.failedWith \1')],
+        ret_rules=[(r'^os$', '(reported, os, evals)')],
+    ),
+    dict(
+        name='report_mismatch_free', cxx='trompeloeil::report_mismatch', file=MOCK, module='ReportMismatchFree',
+        header=r'\n\s*report_mismatch\(\s*call_matcher_list\s*<Sig>\s*&\s*matcher_list,[^)]*\)',
+        pre=[(r'location\{\}', 'location()')],
+        lean_sig='{α : Type} (matches_ : α → Bool) (matcher_list saturated_list : List α) : List (Tok α)',
+        vars={'matcher_list': 'matcher_list', 'saturated_list': 'saturated_list'},
+        local_types={'saturated_match': 'Bool'},
+        decl_rules=[(r'^std::ostringstream os$', 'let mut os : List (Tok α) := []')],
+        expr_rules=[(r'^(\w+)\.matches\(p\)$', r'matches_ \1')],
+        stmt_rules=[(r'^stream_params\(os, p\)$', 'os := os ++ [Tok.text]'),
+                    (r'^(\w+)\.report_mismatch\(os, p\)$', r'os := os ++ [Tok.tried \1]'),
+                    (r'^send_report\(severity::fatal, location\(\), os\.str\(\)\)$', 'return os')],
+        stmt_ignore=[r'^std::abort\(\)$'],
+        stream_sinks=[(r'^os$', 'os'), (r'^(\w+)\.report_signature\(os\)$', r'os|Tok.expectation \1')],
+        tok_rules=STR_TOK + [(r'^name$', 'Tok.matchName')],
+        epilogue='return os',
+    ),
+    dict(
+        name='hook_last', cxx='call_matcher::hook_last', file=MOCK, module='HookLast',
+        header=r'\n\s*hook_last\(\s*call_matcher_list<Sig>\s*&\s*list\)\s*noexcept',
+        lean_sig='{α : Type} (this : α) (list0 : List α) : List α',
+        prologue=['let mut list := list0'], epilogue='return list',
+        vars={'this': 'this'},
+        stmt_rules=[(r'^list\.push_front\(this\)$', 'list := this :: list')],
+        ret_rules=[(r'^this$', 'list')],
     ),
 ]
